@@ -101,22 +101,8 @@ func (r *Run) brackets() []*bracket {
 // panicking or by calling (*T).fail on another T.
 func (p *Program) consultsFailed(f0 *ssa.Function, isX func(v ssa.Value) bool) (bool, string) {
 	var loads []ssa.Value
-	// f0 together with the helpers inlined into it
-	var blocks []*ssa.BasicBlock
-	var addFn func(f *ssa.Function, d int)
-	addFn = func(f *ssa.Function, d int) {
-		blocks = append(blocks, f.Blocks...)
-		for _, b := range f.Blocks {
-			for _, in := range b.Instrs {
-				if h := transparentCallee(in); h != nil && d < 4 {
-					addFn(h, d+1)
-				}
-			}
-		}
-	}
-	addFn(f0, 0)
-	f := struct{ Blocks []*ssa.BasicBlock }{blocks}
-	for _, b := range f.Blocks {
+	f := f0
+	for _, b := range p.body(f) {
 		for _, in := range b.Instrs {
 			u, ok := in.(*ssa.UnOp)
 			if !ok || u.Op != token.MUL {
@@ -134,7 +120,7 @@ func (p *Program) consultsFailed(f0 *ssa.Function, isX func(v ssa.Value) bool) (
 	if len(loads) == 0 {
 		return false, "does not read the failed flag of the bracket's T"
 	}
-	for _, b := range f.Blocks {
+	for _, b := range p.body(f) {
 		for _, in := range b.Instrs {
 			act := ""
 			switch x := in.(type) {
@@ -250,7 +236,7 @@ func ruleC02R1(r *Run) {
 	}
 	if fn := r.MustFn("(*T).fail"); fn != nil {
 		var st *ssa.Store
-		for _, b := range fn.Blocks {
+		for _, b := range p.body(fn) {
 			for _, in := range b.Instrs {
 				if s, ok := in.(*ssa.Store); ok {
 					if fa, ok := s.Addr.(*ssa.FieldAddr); ok && fieldAddrName(fa) == "failed" && p.resolve(fa.X) == ssa.Value(fn.Params[0]) {
@@ -277,7 +263,7 @@ func ruleC02R1(r *Run) {
 		// panic on now
 		nowP := paramNamed(fn, "now")
 		found := false
-		for _, b := range fn.Blocks {
+		for _, b := range p.body(fn) {
 			for _, in := range b.Instrs {
 				pn, ok := in.(*ssa.Panic)
 				if !ok {
@@ -295,7 +281,7 @@ func ruleC02R1(r *Run) {
 		}
 		// the now==true edge must reach the panic
 		if nowP != nil {
-			for _, b := range fn.Blocks {
+			for _, b := range p.body(fn) {
 				if iff, ok := b.Instrs[len(b.Instrs)-1].(*ssa.If); ok && p.resolve(iff.Cond) == ssa.Value(nowP) {
 					hasPanic := false
 					for _, in := range b.Succs[0].Instrs {
@@ -317,7 +303,7 @@ func ruleC02R1(r *Run) {
 		}
 		pan := 0
 		okType := true
-		for _, b := range fn.Blocks {
+		for _, b := range p.body(fn) {
 			for _, in := range b.Instrs {
 				if pn, ok := in.(*ssa.Panic); ok {
 					pan++
@@ -643,7 +629,7 @@ func (r *Run) classifyRecover(fn *ssa.Function, rv ssa.Value) (string, string) {
 			}
 		}
 		pan := 0
-		for _, b := range fn.Blocks {
+		for _, b := range p.body(fn) {
 			for _, in := range b.Instrs {
 				if pn, ok := in.(*ssa.Panic); ok {
 					pan++
